@@ -94,13 +94,18 @@ class Run:
     def count(self, label, n):
         self.instances[label] = self.instances.get(label, 0) + n
 
-    def floor(self, label, minimum):
+    def floor(self, label, confirmed, strict=False):
+        """`confirmed` is the instance count confirmed by hand on the tree the rule was written against.  A maintainer may merge,
+        extract or rewrite some of those instances without changing behaviour, so the run fails as undecided only when the count
+        collapses (below 60 % of the confirmed count, and never below 1) — that is the sign that the rule's recogniser lost its
+        anchors, as opposed to the code having been tidied.  strict=True keeps the exact count (structural tables)."""
         n = self.instances.get(label, 0)
+        minimum = confirmed if strict or confirmed <= 1 else max(1, int(confirmed * 0.6))
         if n < minimum:
             # decided in finish(): a violation found elsewhere is reported first (exit 1); with no
             # violation a rule that matched too little is an analysis error (exit 2), never a pass
-            self.floor_failures.append("instance count for '%s' is %d, below the confirmed floor %d "
-                                       "(the rule would pass vacuously)" % (label, n, minimum))
+            self.floor_failures.append("instance count for '%s' is %d, below the floor %d (confirmed count %d) "
+                                       "(the rule would pass vacuously)" % (label, n, minimum, confirmed))
 
     def note(self, text):
         self.notes.append(text)
